@@ -50,9 +50,25 @@ CanonRR(rr, origTTL, labels) == CanonWith(rr, origTTL, labels, CanonRdata(rr))
 
 (* RFC 4034 s.6.3: RRs sorted by RDATA as left-justified unsigned octet         *)
 (* strings; equal RDATA = duplicate record, kept once.                          *)
+(* The order is Bytes!LexLess.  That definition walks the two strings octet by   *)
+(* octet (depth = the common prefix): fine for the few dozen octets of ordinary *)
+(* RDATA, hopeless for records of 4 .. 64 kB that agree up to their end.  The  *)
+(* same relation without the walk: the length of the common prefix by          *)
+(* bisection (sequence equality is a primitive), then one comparison.          *)
+(* MC_Dnssec: LexLessB = LexLess on all short strings over three octet values. *)
+RECURSIVE CommonPrefix(_, _, _, _)     \* the largest m in lo..hi with a[1..m] = b[1..m], given a[1..lo] = b[1..lo]
+CommonPrefix(a, b, lo, hi) ==
+  IF lo >= hi THEN lo
+  ELSE LET mid == (lo + hi + 1) \div 2 IN
+       IF SubSeq(a, lo + 1, mid) = SubSeq(b, lo + 1, mid) THEN CommonPrefix(a, b, mid, hi) ELSE CommonPrefix(a, b, lo, mid - 1)
+LexLessB(a, b) ==
+  LET n == Min(Len(a), Len(b))
+      m == CommonPrefix(a, b, 0, n)
+  IN IF m = n THEN Len(a) < Len(b) ELSE a[m + 1] < b[m + 1]
+
 RECURSIVE SortOctets(_)
 SortOctets(S) == IF S = {} THEN <<>>
-                 ELSE LET m == CHOOSE x \in S : \A y \in S : x = y \/ LexLess(x, y)
+                 ELSE LET m == CHOOSE x \in S : \A y \in S : x = y \/ LexLessB(x, y)
                       IN <<m>> \o SortOctets(S \ {m})
 
 \* the RRSIG RDATA with the signature left out and the signer in canonical form (s.3.1.8.1)
